@@ -56,6 +56,10 @@ func (s *simSM) close() {
 	os.RemoveAll(s.dir)
 }
 
+// applyTimeout: a request that is not applied within this time counts as non-terminating (the
+// harness stops, the check reports the vector)
+const applyTimeout = 15 * time.Second
+
 type applyReq struct {
 	dtype int8 // node.RedisReq | node.RedisV2Req
 	args  [][]byte
@@ -115,7 +119,7 @@ func (s *simSM) applyEntries(entries [][]applyReq, ts int64) applyRes {
 	}()
 	select {
 	case <-done:
-	case <-time.After(60 * time.Second):
+	case <-time.After(applyTimeout):
 		res.hung = true
 		return res
 	}
